@@ -165,6 +165,7 @@ CTOR = r'''
 //@ func (*IntItem).combineIntValues
 //@ requires item != nil && (item.byteSize == 1 || item.byteSize == 2 || item.byteSize == 4 || item.byteSize == 8)
 //@ modifies item.values
+//@ ensures [own]   result == nil ==> fresh(item.values)
 //@ trusts  [lt2g]  len(item.values) < 1<<31
 //@ loop 1 invariant [fresh] fresh(item.values)
 
@@ -235,6 +236,7 @@ CTOR2 = r'''
 //@ func (*UintItem).combineUintValues
 //@ requires item != nil && (item.byteSize == 1 || item.byteSize == 2 || item.byteSize == 4 || item.byteSize == 8)
 //@ modifies item.values
+//@ ensures [own]   result == nil ==> fresh(item.values)
 //@ trusts  [lt2g]  len(item.values) < 1<<31
 //@ loop 1 invariant [fresh] fresh(item.values)
 
@@ -248,6 +250,7 @@ func specIsUintItem(it Item) bool { _, ok := it.(*UintItem); return ok }
 //@ func (*FloatItem).combineFloatValues
 //@ requires item != nil && (item.byteSize == 4 || item.byteSize == 8)
 //@ modifies item.values
+//@ ensures [own]   result == nil ==> fresh(item.values)
 //@ trusts  [lt2g]  len(item.values) < 1<<31
 //@ loop 1 invariant [fresh] fresh(item.values)
 
